@@ -1,6 +1,6 @@
 // HyraxPC::commit (hyrax/mod.rs), in both build configurations  (C07, C08, C19, C17)
 //@use core ops_gen labeled_comm sponge std ser
-//@spec ring vec_spec
+//@spec ring vec_spec hyrax_spec hyrax_complete
 //@typemap /<G>/ => 
 //@typemap /Self::CommitterKey/ => HyraxUniversalParams
 //@typemap /Self::Commitment\b/ => HyraxCommitment
@@ -13,13 +13,16 @@
 //@typemap /Vec<Vec<F>>/ => Vec<Vec<Fr>>
 //@typemap /Vec<F>/ => Vec<Fr>
 //@typemap /HyraxRandomness<F>/ => Vec<Fr>
+//@typemap /\|_\|/ => |_e|
 //@enum file=poly-commit/src/error.rs name=Error
 //@struct file=poly-commit/src/utils.rs name=Matrix
 //@struct file=poly-commit/src/hyrax/data_structures.rs name=HyraxUniversalParams
 //@struct file=poly-commit/src/hyrax/data_structures.rs name=HyraxCommitment
 //@struct file=poly-commit/src/hyrax/data_structures.rs name=HyraxCommitmentState
+//@struct file=poly-commit/src/hyrax/data_structures.rs name=HyraxProof
+impl SerBytes for HyraxUniversalParams { uninterp spec fn ser_bytes(&self) -> Seq<u8>; }
+pub uninterp spec fn tensor_prime_spec(v: Seq<FS>) -> Seq<FS>;
 pub open spec fn mat_wf(m: &Matrix) -> bool { m.entries@.len() == m.n && forall|r: int| 0 <= r < m.n ==> (#[trigger] m.entries@[r])@.len() == m.m }
-pub open spec fn pedersen(key: Seq<G1Affine>, s: Seq<FS>) -> FS { msm(key, s, min(key.len(), s.len())) }
 impl Matrix {
 //@stub from=matrix.rs id=utils.Matrix.new_from_rows
 }
@@ -61,6 +64,102 @@ pub open spec fn hyrax_commit_one(ck: &HyraxUniversalParams, p: &LabeledML, c: &
 pub open spec fn hyrax_draws(ps: Seq<&LabeledML>, k: nat) -> nat decreases k { if k == 0 { 0 } else { hyrax_draws(ps, (k - 1) as nat) + vstd::arithmetic::power2::pow2((ps[k - 1].polynomial.num_vars / 2) as nat) } }
 pub open spec fn hyrax_admissible(ck: &HyraxUniversalParams, p: &LabeledML) -> bool { p.polynomial.num_vars % 2 == 0 && p.polynomial.num_vars <= ck.com_key@.len() }
 
+#[verifier::external_body] pub fn tensor_prime(values: &[Fr]) -> (r: Vec<Fr>) ensures fviews(r@) == tensor_prime_spec(fviews(values@)), r@.len() == vstd::arithmetic::power2::pow2(values@.len()) { unimplemented!() }
+#[verifier::external_body] pub fn string_ne(a: &String, b: &String) -> (r: bool) ensures r == (*a != *b) { unimplemented!() }     // `a != b` on &String
+//@stub from=hyrax.rs id=utils.inner_product
+//@stub from=matrix.rs id=utils.vector_sum
+//@stub from=matrix.rs id=utils.scalar_by_vector
+impl Matrix {
+//@stub from=matrix.rs id=utils.Matrix.row_mul
+}
+// what the honest prover puts into the proof for (state st) at the point with tensors l, r, under the verifier challenge c,
+// with its blinding taken from positions pos.. of the generator id:  r_eval, d_0..d_{dim-1}, r_d, r_b
+#[verifier::opaque]
+pub open spec fn hyrax_honest(ck: &HyraxUniversalParams, st: &HyraxCommitmentState, l: Seq<FS>, r: Seq<FS>, pr: &HyraxProof, c: FS, id: int, pos: nat, nd: nat) -> bool {
+    let dim = st.mat.m as nat;
+    let lt = Seq::new(dim, |col: int| ip(l, Seq::new(st.mat.n as nat, |rw: int| st.mat.entries@[rw]@[col]@)));      // l * T
+    let r_lt = ip(l, fviews(st.randomness@));
+    let eval = ip(lt, r);
+    let d = Seq::new(nd, |j: int| draw(id, pos + 1 + j as nat));
+    let r_eval = draw(id, pos); let r_d = draw(id, pos + 1 + nd); let r_b = draw(id, pos + 2 + nd);
+    pr.com_eval@ == f_add(f_mul(ck.com_key@[0]@, eval), f_mul(ck.h@, r_eval))
+    && pr.com_d@ == f_add(pedersen(ck.com_key@, d), f_mul(ck.h@, r_d))
+    && pr.com_b@ == f_add(f_mul(ck.com_key@[0]@, ip(r, d)), f_mul(ck.h@, r_b))
+    && pr.z@.len() == min(d.len(), lt.len()) && (forall|j: int| 0 <= j < pr.z@.len() ==> (#[trigger] pr.z@[j])@ == f_add(d[j], f_mul(lt[j], c)))
+    && pr.z_d@ == f_add(f_mul(c, r_lt), r_d)
+    && pr.z_b@ == f_add(f_mul(c, r_eval), r_b)
+}
+// ======================= C01 for Hyrax: an honest opening of an honest commitment satisfies both verifier equations =======================
+pub open spec fn mrows(st: &HyraxCommitmentState) -> Seq<Seq<FS>> { Seq::new(st.mat.entries@.len(), |i: int| fviews(st.mat.entries@[i]@)) }
+//@lemma props=C01
+pub proof fn lemma_hyrax_complete(ck: &HyraxUniversalParams, p: &LabeledML, c: &LabeledCommitment<HyraxCommitment>, st: &HyraxCommitmentState, l: Seq<FS>, r: Seq<FS>, pr: &HyraxProof, ch: FS, id: int, pos: nat, dim: nat)
+    requires
+        hyrax_commit_shape(ck, p, c, st),               // what HyraxPC::commit returns (unit hyrax.commit)
+        hyrax_honest(ck, st, l, r, pr, ch, id, pos, dim),  // what HyraxPC::open puts into the proof (unit hyrax.open)
+        dim == vstd::arithmetic::power2::pow2((p.polynomial.num_vars / 2) as nat), dim >= 1,
+        ck.com_key@.len() == dim,                        // (commit aborts otherwise: pedersen_commit asserts equal lengths)
+        l.len() == dim, r.len() == dim,                  // tensors of a point with num_vars coordinates
+    ensures
+        hyrax_eq13(ck, c.commitment.row_coms@, l, pr, ch),
+        hyrax_eq14(ck, r, pr, ch),
+{
+    reveal(hyrax_commit_shape); reveal(hyrax_honest);
+    let key = g1views(ck.com_key@); let h = ck.h@; let g0 = ck.com_key@[0]@;
+    let t = mrows(st);
+    let rnd = fviews(st.randomness@);
+    let d = Seq::new(dim, |j: int| draw(id, pos + 1 + j as nat));
+    let r_eval = draw(id, pos); let r_d = draw(id, pos + 1 + dim); let r_b = draw(id, pos + 2 + dim);
+    let lt = Seq::new(dim, |col: int| ip(l, Seq::new(st.mat.n as nat, |rw: int| st.mat.entries@[rw]@[col]@)));
+    let z = fviews(pr.z@);
+    // lt as a column-wise dot product
+    assert forall|j: int| 0 <= j < dim implies lt[j] == ltn(l, t, dim, dim)[j] by {
+        let colj = Seq::new(st.mat.n as nat, |rw: int| st.mat.entries@[rw]@[j]@);
+        lemma_ip_is_dot(l, colj);
+        assert(colj =~= mcol(t, j));
+    }
+    assert(lt =~= ltn(l, t, dim, dim));
+    let cl = Seq::new(dim, |j: int| f_mul(ch, lt[j]));
+    assert forall|j: int| 0 <= j < dim implies z[j] == f_add(d[j], cl[j]) by { ax_mul_comm(lt[j], ch); }
+    // ---- eq (14): g0 * <r, z> + h * z_b == com_eval * c + com_b
+    lemma_ip_is_dot(r, z); lemma_ip_is_dot(r, d); lemma_ip_is_dot(lt, r);
+    lemma_dot_add(r, d, cl, z, dim);
+    lemma_dot_scale(r, lt, ch, cl, dim);
+    lemma_dot_comm(r, lt, dim);
+    let eval = ip(lt, r);
+    assert(dot(r, z, dim) == f_add(ip(r, d), f_mul(ch, eval)));
+    ax_mul_comm(ch, eval);
+    assert(fsum(pointwise_mul(r, z), min(r.len(), z.len())) == dot(r, z, dim));
+    lemma_eq14_alg(g0, h, ip(r, d), ch, eval, r_eval, r_b);
+    ax_mul_comm(pr.com_eval@, ch);
+    // ---- eq (13): <key, z> + h * z_d == (sum_i l_i * row_com_i) * c + com_d
+    lemma_dot_add(key, d, cl, z, dim);
+    lemma_dot_scale(key, lt, ch, cl, dim);
+    // row commitments: rc_i = <key, T_i> + h * rnd_i
+    let rc = g1views(c.commitment.row_coms@);
+    let rd_ = rowdots(key, t, dim);
+    let hr = Seq::new(dim, |i: int| f_mul(h, rnd[i]));
+    assert forall|i: int| 0 <= i < dim implies rc[i] == f_add(rd_[i], hr[i]) by {
+        assert(fviews(st.mat.entries@[i]@) == t[i]);
+        assert(min(key.len(), t[i].len()) == dim);
+    }
+    lemma_dot_comm(rc, l, dim);
+    lemma_dot_add(l, rd_, hr, rc, dim);
+    lemma_dot_comm(l, rd_, dim);
+    lemma_dot_scale(l, rnd, h, hr, dim);
+    lemma_rows_exchange(key, t, l, dim, dim);
+    let r_lt = ip(l, rnd);
+    lemma_ip_is_dot(l, rnd);
+    assert(dot(rc, l, dim) == f_add(dot(key, lt, dim), f_mul(h, r_lt)));
+    assert(msm(c.commitment.row_coms@, l, min(c.commitment.row_coms@.len(), l.len())) == dot(rc, l, dim));
+    assert(pedersen(ck.com_key@, z) == dot(key, z, dim));
+    assert(pedersen(ck.com_key@, d) == dot(key, d, dim));
+    lemma_eq13_alg(dot(key, d, dim), dot(key, lt, dim), h, ch, r_lt, r_d);
+}
+pub proof fn lemma_hyrax_state_prefix(s: SS, vk: &HyraxUniversalParams, coms: Seq<&LabeledCommitment<HyraxCommitment>>, pt: Seq<FS>, p1: Seq<HyraxProof>, p2: Seq<HyraxProof>, k: nat)
+    requires k <= p1.len(), k <= p2.len(), forall|i: int| 0 <= i < k ==> p1[i] == p2[i]
+    ensures hyrax_state(s, vk, coms, pt, p1, k) == hyrax_state(s, vk, coms, pt, p2, k)
+    decreases k
+{ if k > 0 { lemma_hyrax_state_prefix(s, vk, coms, pt, p1, p2, (k - 1) as nat); } }
 // the i-th generator: hash-to-curve of (PROTOCOL_NAME, i[, j]), cofactor cleared - a deterministic function of i  [the sampling closure is outside the verified text]
 pub uninterp spec fn hyrax_gen(i: nat) -> AS;
 #[verifier::external_body] pub fn hyrax_sample_point(i: u64) -> (g: G1) ensures g@ == hyrax_gen(i as nat) { unimplemented!() }
@@ -146,6 +245,98 @@ impl HyraxPC {
 //@rw 1 /let points: Vec<_> =/ => let points: Vec<G1> =
 //@rw 1 /G::Group::normalize_batch/ => G1::normalize_batch
 //@rw 1 /let h: G = points\.pop\(\)\.unwrap\(\);/ => let h: G1Affine = points.pop().unwrap_abort();
+//@end
+
+//@fn id=hyrax.open file=poly-commit/src/hyrax/mod.rs scope="impl<G, P> PolynomialCommitment<G::ScalarField, P> for HyraxPC<G, P>" name=open props=C11,C01,C07,C19,C17
+    fn open<'a>(ck: &HyraxUniversalParams, labeled_polynomials: Vec<&'a LabeledML>, commitments: Vec<&'a LabeledCommitment<HyraxCommitment>>, point: &'a Vec<Fr>, sponge: &mut Sponge, states: Vec<&'a HyraxCommitmentState>, rng: Option<&mut Rng>) -> (res: Result<Vec<HyraxProof>, Error>)
+    requires
+        point@.len() < 64, ck.com_key@.len() >= 1,
+        rng is Some ==> rng->Some_0.present@,
+        forall|i: int| 0 <= i < states@.len() ==> mat_wf(&(#[trigger] states@[i]).mat),
+    ensures
+        point@.len() % 2 == 1 ==> res is Err,   // name=hyrax.open.odd_number_of_variables_is_err props=C17
+        res is Ok ==> res->Ok_0@.len() == min(labeled_polynomials@.len(), min(commitments@.len(), states@.len())),   // name=hyrax.open.one_proof_per_polynomial props=C19,C01
+        // the prover absorbs and squeezes exactly like the verifier
+        res is Ok ==> final(sponge).st@ == hyrax_state(old(sponge).st@, ck, commitments@, fviews(point@), res->Ok_0@, res->Ok_0@.len()),   // name=hyrax.open.transcript_schedule_is_the_verifiers props=C11
+        res is Ok ==> rng is Some,   // name=hyrax.open.no_rng_no_proof props=C07,C17
+        res is Ok ==> (forall|i: int| 0 <= i < res->Ok_0@.len() ==> (#[trigger] labeled_polynomials@[i]).label == commitments@[i].label && labeled_polynomials@[i].polynomial.num_vars == point@.len()),   // name=hyrax.open.mismatched_labels_or_arity_are_errors props=C17
+        res is Ok ==> (forall|i: int| 0 <= i < res->Ok_0@.len() ==> hyrax_honest(ck, (#[trigger] states@[i]), hyrax_l(fviews(point@)), hyrax_r(fviews(point@)), &res->Ok_0@[i],
+            hyrax_chal(old(sponge).st@, ck, commitments@, fviews(point@), res->Ok_0@, i as nat), old(rng->Some_0).id@,
+            old(rng->Some_0).pos@ + i as nat * (vstd::arithmetic::power2::pow2((point@.len() / 2) as nat) + 3), vstd::arithmetic::power2::pow2((point@.len() / 2) as nat))),   // name=hyrax.open.proof_contents_and_fresh_blinding props=C01,C07
+//@body
+//@rw 1 /point\.iter\(\)\.rev\(\)\.cloned\(\)\.collect\(\)/ => point.iter().rev().map(|x: &Fr| -> (y: Fr) ensures y == *x { *x }).collect()
+//@rw 1 /rng\.expect\("[^"]*"\)/ => &mut expect_rng(rng)
+//@rw 1 /label != l_com\.label\(\)/ => string_ne(label, l_com.label())
+//@rw * /l_com\.label\(\)\.to_string\(\)/ => string_to_string(l_com.label())
+//@rw * /label\.to_string\(\)/ => string_to_string(label)
+//@rw 1 /let dim = 1 << n \/ 2;/ => proof { vstd::arithmetic::power2::lemma_pow2_strictly_increases((n / 2) as nat, 64); vstd::arithmetic::power2::lemma2_to64(); vstd::arithmetic::power2::lemma_pow2_pos((n / 2) as nat); vstd::bits::lemma_usize_shl_is_mul(1usize, (n / 2) as usize); }
+        let dim: usize = 1 << n / 2;
+//@rw 1 /let mut proofs = Vec::new\(\);/ => let mut proofs: Vec<HyraxProof> = Vec::new();
+//@rw 1 /(?s)let r_lt = (cfg_iter!\(l\)\s*\.zip\(&state\.randomness\)\s*\.map\(.*?\))\s*\.sum::<G::ScalarField>\(\);/ => let rl__: Vec<Fr> = \1.collect();
+            proof { assert(fviews(rl__@) =~= pointwise_mul(fviews(l@), fviews(state.randomness@))); }
+            let r_lt = sum_vec(&rl__);
+//@rw 1 /\.zip\(&state\.randomness\)/ => .zip(state.randomness.iter())
+//@closure |(l, r)| => |q: (&Fr, &Fr)| -> (y: Fr) ensures y@ == f_mul(q.0@, q.1@) ;; let (l, r) = q;
+//@rw 1 /(?s)let d: Vec<G::ScalarField> =\s*\(0\.\.dim\)\.map\(\|_\| G::ScalarField::rand\(rng_inner\)\)\.collect\(\);/ => let mut d: Vec<Fr> = Vec::new();
+            let ghost pos_d = rng_inner.pos@;
+            for _j in itd: 0..dim
+                invariant itd.index@ <= dim, d@.len() == itd.index@, rng_inner.id@ == id0, rng_inner.present@, rng_inner.pos@ == pos_d + itd.index@,
+                    forall|j: int| 0 <= j < itd.index@ ==> (#[trigger] d@[j])@ == draw(id0, pos_d + j as nat),
+            { d.push(Fr::rand(rng_inner)); }
+//@rw 1 /sponge\.squeeze_field_elements\(1\)\[0\]/ => { let sq__ = sponge.squeeze_field_elements(1); sq__[0] }
+//@after start
+        let ghost id0 = if rng is Some { rng->Some_0.id@ } else { 0 };
+        let ghost pos0 = if rng is Some { rng->Some_0.pos@ } else { 0 };
+        let ghost s0 = sponge.st@;
+        let ghost pt = fviews(point@);
+//@before /let l = tensor_prime\(point_lower\);/
+        proof {
+            assert(fviews(point_rev@) =~= rev_seq(fviews(point@)));
+            assert(fviews(point_lower@) =~= rev_seq(fviews(point@)).subrange((point@.len() / 2) as int, point@.len() as int));
+            assert(fviews(point_upper@) =~= rev_seq(fviews(point@)).subrange(0, (point@.len() / 2) as int));
+        }
+//@loop 1 kw=for name=it
+            invariant it.index@ <= min(labeled_polynomials@.len(), min(commitments@.len(), states@.len())), proofs@.len() == it.index@,
+                n == point@.len(), n % 2 == 0, n < 64, ck.com_key@.len() >= 1, pt == fviews(point@),
+                fviews(l@) == hyrax_l(pt), fviews(r@) == hyrax_r(pt),
+                forall|i: int| 0 <= i < states@.len() ==> mat_wf(&(#[trigger] states@[i]).mat),
+                rng_inner.id@ == id0 && rng_inner.present@ && rng_inner.pos@ == pos0 + it.index@ * (dim + 3), dim == vstd::arithmetic::power2::pow2((n / 2) as nat),
+                sponge.st@ == hyrax_state(s0, ck, commitments@, pt, proofs@, it.index@ as nat),
+                forall|i: int| 0 <= i < it.index@ ==> (#[trigger] labeled_polynomials@[i]).label == commitments@[i].label && labeled_polynomials@[i].polynomial.num_vars == point@.len(),
+                forall|i: int| 0 <= i < it.index@ ==> hyrax_honest(ck, (#[trigger] states@[i]), hyrax_l(pt), hyrax_r(pt), &proofs@[i], hyrax_chal(s0, ck, commitments@, pt, proofs@, i as nat), id0, pos0 + i as nat * (dim as nat + 3), dim as nat),
+//@loopstart 1
+            let ghost k = it.index@;
+            let ghost pr0 = proofs@;
+            let ghost s_k = sponge.st@;
+            let ghost posk = rng_inner.pos@;
+            proof { assert(k * (dim + 3) + (dim + 3) == (k + 1) * (dim + 3)) by (nonlinear_arith); }
+//@before /let c = sponge\.squeeze_field_elements\(1\)\[0\];/
+            let ghost s_abs = sponge.st@;
+//@loopend 1
+            proof {
+                let pr = proofs@[k];
+                assert(proofs@ =~= pr0.push(pr));
+                assert(s_abs == hyrax_absorbed(s_k, ck, &l_com.commitment, pt, &pr));
+                assert(sponge.st@ == sp_sqn_next(s_abs, 1));
+                assert forall|j: nat| j <= k implies #[trigger] hyrax_state(s0, ck, commitments@, pt, proofs@, j) == hyrax_state(s0, ck, commitments@, pt, pr0, j) by {
+                    lemma_hyrax_state_prefix(s0, ck, commitments@, pt, proofs@, pr0, j);
+                }
+                assert(l_com == commitments@[k] && state == states@[k] && l_poly == labeled_polynomials@[k]);
+                lemma_hyrax_state_prefix(s0, ck, commitments@, pt, proofs@, pr0, k as nat);
+                assert(hyrax_state(s0, ck, commitments@, pt, proofs@, k as nat) == s_k);
+                assert(commitments@[((k + 1) as nat) - 1] == l_com && proofs@[((k + 1) as nat) - 1] == pr);
+                assert(sponge.st@ == hyrax_state(s0, ck, commitments@, pt, proofs@, (k + 1) as nat));
+                assert(c@ == hyrax_chal(s0, ck, commitments@, pt, proofs@, k as nat));
+                assert(hyrax_honest(ck, states@[k], hyrax_l(pt), hyrax_r(pt), &proofs@[k], hyrax_chal(s0, ck, commitments@, pt, proofs@, k as nat), id0, pos0 + k as nat * (dim as nat + 3), dim as nat)) by {
+                    reveal(hyrax_honest);
+                    assert(posk == pos0 + k * (dim + 3));
+                    assert(fviews(d@) =~= Seq::new(dim as nat, |j: int| draw(id0, posk + 1 + j as nat)));
+                    assert(fviews(lt@) =~= Seq::new(state.mat.m as nat, |col: int| ip(fviews(l@), Seq::new(state.mat.n as nat, |rw: int| state.mat.entries@[rw]@[col]@))));
+                }
+                assert forall|i: int| 0 <= i < k implies hyrax_honest(ck, (#[trigger] states@[i]), hyrax_l(pt), hyrax_r(pt), &proofs@[i], hyrax_chal(s0, ck, commitments@, pt, proofs@, i as nat), id0, pos0 + i as nat * (dim as nat + 3), dim as nat) by {
+                    assert(hyrax_chal(s0, ck, commitments@, pt, proofs@, i as nat) == hyrax_chal(s0, ck, commitments@, pt, pr0, i as nat));
+                }
+            }
 //@end
 
 //@fn id=hyrax.commit.parallel file=poly-commit/src/hyrax/mod.rs scope="impl<G, P> PolynomialCommitment<G::ScalarField, P> for HyraxPC<G, P>" name=commit props=C07,C08,C19,C17
